@@ -110,6 +110,71 @@ def class_chain(fx, cls):
     return out
 
 
+def default_substitute_rule(res, fx):
+    """'missing data handled by the stated default rule': a filter with an assumed default decides as if the Message contained that value.  Structurally: in Matches() the default is
+    SUBSTITUTED for the value that was not found — it flows into the same local(s) as the found value, and only those locals are consumed; no consumer sees the default alone."""
+    res.rule('DEFAULT-SUBSTITUTE', 'in every Matches() that reads the filter\'s _default member, the default only ever defines locals that the value found in the Message also defines (found-or-default '
+                                   'substitution), and every use of it outside such a definition or a null test is a use of one of those locals', floor=3)
+    n_ds = 0
+    for f in sorted((f for f in fx.funcs.values() if f.full and f.q.endswith('::Matches') and 'QueryFilter' in f.q), key=lambda f: (f.file, f.line, f.id)):
+        dmem = [x for x in f.walk() if x['k'] == 'MemberExpr' and x.get('n') == '_default']
+        if not dmem:
+            continue
+        # definitions of locals: (decl id, rhs node or None for an out-parameter of a Find call)
+        defs = {}
+        found = set()
+        def_rhs_nodes = set()
+        for n in f.walk():
+            if n['k'] == 'VarDecl' and n.get('d') is not None and n['ch']:
+                defs.setdefault(n['d'], []).append(n['ch'][0])
+                def_rhs_nodes.add(n['ch'][0]['i'])
+            elif n['k'] == 'BinaryOperator' and n.get('op') == '=' and A.strip_casts(n['ch'][0])['k'] == 'DeclRefExpr' and A.strip_casts(n['ch'][0]).get('d') is not None:
+                defs.setdefault(A.strip_casts(n['ch'][0])['d'], []).append(n['ch'][1])
+                def_rhs_nodes.add(n['ch'][1]['i'])
+            elif n.is_call() and re.search(r'^muscle::Message::Find\w+$', n.get('q') or ''):
+                for a in n.args():
+                    a0 = A.strip_casts(a)
+                    if a0['k'] == 'UnaryOperator' and a0.get('op') == '&' and A.strip_casts(a0['ch'][0])['k'] == 'DeclRefExpr':
+                        found.add(A.strip_casts(a0['ch'][0]).get('d'))
+        D, F = set(), set(found)
+        changed = True
+        while changed:
+            changed = False
+            for d, rhss in defs.items():
+                for r in rhss:
+                    names = set(x.get('d') for x in r.walk() if x['k'] == 'DeclRefExpr')
+                    if d not in D and (any(x['k'] == 'MemberExpr' and x.get('n') == '_default' for x in r.walk()) or names & D):
+                        D.add(d)
+                        changed = True
+                    if d not in F and names & F:
+                        F.add(d)
+                        changed = True
+        n_ds += 1
+        bad = None
+
+        def inside_def_or_test(x):
+            for a in x.ancestors():
+                if a['i'] in def_rhs_nodes:
+                    return True
+                if a['k'] in ('IfStmt', 'ConditionalOperator', 'WhileStmt') and a['ch'] and (a.role('cond') if a['k'] != 'ConditionalOperator' else a['ch'][0]) is not None:
+                    c = a.role('cond') if a['k'] != 'ConditionalOperator' else a['ch'][0]
+                    if c is not None and x['i'] in set(y['i'] for y in c.walk()):
+                        return True          # a null / presence test of the default
+            return x['i'] in def_rhs_nodes
+        for x in f.walk():
+            if x['k'] == 'MemberExpr' and x.get('n') == '_default' and not inside_def_or_test(x):
+                bad = bad or (x, 'the member _default itself')
+            if x['k'] == 'DeclRefExpr' and x.get('d') in D and x['d'] not in F and not inside_def_or_test(x):
+                bad = bad or (x, 'local `%s`, which only ever holds the default' % x.get('n'))
+        res.ob('DEFAULT-SUBSTITUTE', f.where(bad[0]) if bad else f.where(), '%s: the assumed default is substituted for the missing value (same locals, same processing)' % f.q.split('::')[-2], bad is None, function=f.q,
+               how='locals defined from the found value and from the default: %s' % sorted(set(n_ for n_ in (next((v.get('n') for v in f.walk() if v['k'] == 'VarDecl' and v.get('d') == d), None) for d in D & F) if n_)),
+               key='DEFAULT-SUBSTITUTE|%s' % f.q.split('<')[0],
+               message='%s evaluates %s at line %s on a path of its own: the assumed default does not go through the processing that a value found in the Message goes through (mask operation, '
+                       'conversion, comparison), so the filter no longer decides "as if the Message contained the default"' % (f.q, bad[1] if bad else '', bad[0].get('l') if bad else ''))
+    if n_ds < 3:
+        raise AnalysisBroken('DEFAULT-SUBSTITUTE: only %d Matches() implementations read a _default member' % n_ds)
+
+
 def run(res, tier):
     fx = common.load_units(res, ['regex/QueryFilter.cpp'], fn_regex=r'QueryFilter|Lexer')
     res.functions_analysed = sum(1 for f in fx.funcs.values() if f.full)
@@ -345,6 +410,7 @@ def run(res, tier):
                    message='%s reads `%s` without GetIndex(): the filter always looks at item 0, whatever index it was built (or restored) with, and bypasses the missing-item rule' % (f.q, c.text(60)))
     if n_iu < 4:
         raise AnalysisBroken('INDEX-USED: only %d field reads found in the value filters' % n_iu)
+    default_substitute_rule(res, fx)
     res.explanation = ('Static decision of the archiving structure of the query filters: the archive operations of every SaveToArchive/SetFromArchive pair are extracted from the resolved AST (field-name literal, '
                        'accessor kind, default argument, base-class chaining) and compared; the data members read under Matches (through same-class helpers) must be read by the save side and written by the load '
                        'side in the class chain; factory, TypeCode() and enum are compared as tables; no Matches removes const; factory results are null-tested. Truth tables and the expression grammar are not decided.')
